@@ -19,8 +19,8 @@ package main
 import (
 	"encoding/binary"
 	"errors"
-	"hash/crc32"
 	"fmt"
+	"hash/crc32"
 	"os"
 	"path/filepath"
 	"sort"
@@ -996,7 +996,7 @@ func genHistory(g *hx.Gen, noMix bool) {
 }
 
 func gen(g *hx.Gen) {
-	for h := 0; h < g.N(70, 1200); h++ {
+	for h := 0; h < g.N(200, 2500); h++ {
 		genHistory(g, h%3 == 0)
 	}
 	g.Emit("reset")
